@@ -24,7 +24,7 @@ import facts  # noqa: E402
 from facts import AnalysisBroken  # noqa: E402
 
 VERIF = facts.VERIF
-EVID = os.path.join(VERIF, 'evidence')
+EVID = os.environ.get('VERIF_EVIDENCE_DIR') or os.path.join(VERIF, 'evidence')
 REPLAY = os.path.join(EVID, 'replay')
 KNOWN = os.path.join(VERIF, 'known_findings.json')
 
